@@ -164,6 +164,17 @@ def _model_real(model, xr):
 
 
 def _model_elem(model, e):
+    if isinstance(e, sym.XF):
+        v = model.eval(e.t, model_completion=True)
+        if z3.is_fp_value(v):
+            if v.isNaN():
+                return float("nan")
+            if v.isInf():
+                return float("-inf") if v.isNegative() else float("inf")
+            import struct
+            bits = (int(v.sign()) << 63) | ((v.exponent_as_long(True) & 0x7FF) << 52) | (v.significand_as_long() & ((1 << 52) - 1))
+            return struct.unpack("<d", struct.pack("<Q", bits))[0]
+        return float("nan")
     if isinstance(e, XR):
         return _model_real(model, e)
     if isinstance(e, SBool):
@@ -268,6 +279,19 @@ class TSym(TBase):
         r = self._mk(name, shape, mk)
         r.sdtype = sdtype
         return r
+
+    def fp(self, name, lo=None, hi=None, lo_open=False):
+        """A symbolic IEEE-754 binary64 value (bit-precise), optionally within [lo, hi] (lo excluded if lo_open)."""
+        t = z3.FP(name, z3.Float64())
+        c = sym.ctx()
+        c.pc.append(z3.Not(z3.Or(z3.fpIsNaN(t), z3.fpIsInf(t))))
+        if lo is not None:
+            c.pc.append((z3.fpGT if lo_open else z3.fpGEQ)(t, z3.FPVal(float(lo), z3.Float64())))
+        if hi is not None:
+            c.pc.append(z3.fpLEQ(t, z3.FPVal(float(hi), z3.Float64())))
+        e = sym.XF(t)
+        self.inputs[name] = e
+        return e
 
     def boolean(self, name, shape=()):
         def mk(nm, idx):
@@ -476,6 +500,25 @@ class TConc(TBase):
                 v = rnp.where(self.rng.integers(0, 3, size=shape_t) == 0, rnp.nan, v)
             if shape_t == ():
                 v = float(v)
+        self.inputs[name] = v
+        return v
+
+    def fp(self, name, lo=None, hi=None, lo_open=False):
+        if self.given_inputs is not None and name in self.given_inputs:
+            v = float(self.given_inputs[name])
+        else:
+            l, h = (0.0 if lo is None else lo), (1.0 if hi is None else hi)
+            mode = int(self.rng.integers(0, 3))
+            if mode == 0:
+                v = float(self.rng.uniform(l, h))
+            else:  # values k/n and their floating-point neighbours: the rounding hazards
+                n = int(self.rng.integers(1, 300))
+                v = l + (h - l) * int(self.rng.integers(0, n + 1)) / n
+                for _ in range(int(self.rng.integers(0, 3))):
+                    v = float(rnp.nextafter(v, h if self.rng.integers(0, 2) else l))
+            v = min(max(v, l), h)
+            if lo_open and v <= l:
+                v = float(rnp.nextafter(l, h))
         self.inputs[name] = v
         return v
 
